@@ -1096,6 +1096,27 @@ func (x *Exec) rangeStmt(s *ast.RangeStmt, st *State, cs []*ctl, label string) [
 			}
 		}
 	}
+	// `for i, v := range slices.Backward(s)` / slices.All(s), `for v := range
+	// slices.Values(s)`: the iterator yields the elements of s (Backward: from
+	// the last to the first); the loop is executed as a range over s, with the
+	// index counted down for Backward.
+	backward := false
+	if call, ok := unparen(s.X).(*ast.CallExpr); ok && seqSlice == nil && len(call.Args) == 1 {
+		if fn := x.calleeOf(call); fn != nil && fn.Pkg() != nil && fn.Pkg().Path() == "slices" &&
+			(fn.Name() == "Backward" || fn.Name() == "All" || fn.Name() == "Values") {
+			at := x.info.TypeOf(call.Args[0])
+			if _, isSl := at.Underlying().(*types.Slice); isSl {
+				if sl, ok := x.expr(call.Args[0], st).(Sl); ok {
+					seqSlice = &sl
+					xt = at
+					backward = fn.Name() == "Backward"
+					if fn.Name() == "Values" {
+						valVar, keyVar = keyVar, nil
+					}
+				}
+			}
+		}
+	}
 	itName := fmt.Sprintf("it%d", ord)
 	idxII := intInfo{64, true}
 
@@ -1175,6 +1196,10 @@ func (x *Exec) rangeStmt(s *ast.RangeStmt, st *State, cs []*ctl, label string) [
 				sb.vars[valVar] = x.fresh(sb, mapValT, "mapval")
 			}
 			return
+		}
+		if backward {
+			// position n-1-i of the slice
+			i = x.idxSub(x.idxSub(n, x.ar.idxC(1)), i)
 		}
 		if keyVar != nil {
 			kii, _ := intInfoOf(keyVar.Type())
